@@ -6,6 +6,7 @@ package verifharness
 // CHF acted upon reveals which answer it took.
 
 import (
+	"sync/atomic"
 	"bufio"
 	"bytes"
 	"crypto/tls"
@@ -540,6 +541,8 @@ type LeakCase struct {
 	// Used: the volumes reported as used, in turn (default: always 5 of the 10 requested -- a report below the grant;
 	// 10 and more settle the whole reservation, 0 reports nothing)
 	Used []int `json:"used"`
+	// DbFailEvery: every k-th write of the store fails (a transient write error; 0 = never)
+	DbFailEvery int `json:"dbFailEvery"`
 }
 
 func establishedTo(ports ...int) int {
@@ -551,7 +554,7 @@ func establishedTo(ports ...int) int {
 	for _, p := range ports {
 		want[fmt.Sprintf("%04X", p)] = true
 	}
-	n := 0
+	n, srv := 0, 0
 	for _, line := range strings.Split(string(data), "\n")[1:] {
 		f := strings.Fields(line)
 		if len(f) < 4 {
@@ -561,6 +564,14 @@ func establishedTo(ports ...int) int {
 		if len(rem) == 2 && want[rem[1]] && f[3] == "01" { // remote port is a Diameter server port, state ESTABLISHED
 			n++
 		}
+		// the servers' side of the connections (they run in this process): established or waiting for the server to close
+		loc := strings.Split(f[1], ":")
+		if len(loc) == 2 && want[loc[1]] && (f[3] == "01" || f[3] == "08") {
+			srv++
+		}
+	}
+	if srv > n {
+		return srv
 	}
 	return n
 }
@@ -620,6 +631,13 @@ func RunLeak(prefix, in, out string) error {
 		time.Sleep(300 * time.Millisecond)
 		base := runtime.NumGoroutine()
 		baseConn := establishedTo(env.RfPort, env.AbPort)
+		if c.DbFailEvery > 0 {
+			var writes int32
+			k := int32(c.DbFailEvery)
+			env.Mongo.FailUpdate = func(string) bool { return atomic.AddInt32(&writes, 1)%k == 0 }
+		} else {
+			env.Mongo.FailUpdate = nil
+		}
 		var samples []any
 		bad := 0
 		for i := 0; i < c.N; i++ {
